@@ -29,10 +29,11 @@ fn opts() -> HistOpts {
     let mut o = HistOpts::new(Profile::Typed);
     o.contract = true;
     o.hidden = true;
+    o.twin = true;
     o
 }
 
-const RULE: &str = "overlays of 2..4 layers with nested subtrees pre-populated in the layers; every step is phase-tagged: (a) remove an entry that lives in a lower layer (remove_file / remove_dir / remove_dir_all), (b) re-create a previously removed path as file or directory (same or other type), (c) an unrelated typed C01 op; after every step the full snapshot (recursive read_dir, exists+metadata over the universe, bytes) must equal the model: removed subtrees stay absent, re-created files hold only the new bytes, re-created directories are empty, and no '.whiteout'/'_wo' name is listed anywhere; non-trivial = a lower-layer entry removed, >=3 later ops, and a re-creation of a removed path";
+const RULE: &str = "overlays of 2..4 layers with nested subtrees pre-populated in the layers; every step is phase-tagged: (a) remove an entry that lives in a lower layer (remove_file / remove_dir / remove_dir_all), (b) re-create a previously removed path as file or directory (same or other type), (c) an unrelated typed C01 op; after every step the full snapshot (recursive read_dir, exists+metadata over the universe, bytes) must equal the model: removed subtrees stay absent, re-created files hold only the new bytes, re-created directories are empty, and no '.whiteout'/'_wo' name is listed anywhere; deletions persist across instances: a second OverlayFS built over the same layers before the history and a fresh one built after every step show the same tree; non-trivial = a lower-layer entry removed, >=3 later ops, and a re-creation of a removed path";
 
 fn test(case: &C10Case, st: &mut Stats, counting: bool, exclude: &Excluder) -> CaseResult {
     let (pool, depth) = effective(&case.base);
@@ -95,6 +96,7 @@ fn test(case: &C10Case, st: &mut Stats, counting: bool, exclude: &Excluder) -> C
         st.label_n("recreate_type_change", s.recreate_type_change as u64);
         st.label_n("recreate_same_type", s.recreate_same_type as u64);
         st.label_n("deep_lower_dir_removed", s.removed_lower_dirs_deep as u64);
+        st.label_n("second_overlay_instance_views_compared", s.twin_views as u64);
         if s.recreate_type_change > 0 {
             st.label("cases_with_type_changing_recreation");
         }
